@@ -47,6 +47,8 @@ import AutosarVerif.Lemmas.Reachable
 import AutosarVerif.Model.ToySpec
 import AutosarVerif.Lemmas.SerFiles
 import AutosarVerif.Lemmas.StepX
+import AutosarVerif.Lemmas.StepLM
+import AutosarVerif.Lemmas.LoadMerge
 
 namespace AV.C10
 open AV.W
@@ -143,5 +145,21 @@ example : sets (addPath toySpec 1 [0, 1] [] true (.elem (hdr 0 [0]) kids .nil)).
 example : sets (rmAt 0 0 [] (.elem (hdr 0 [0, 1]) (.elem (hdr 1 [0, 1]) .nil (.elem (hdr 2 [0]) .nil .nil)) .nil)) =
     [(0, [1]), (1, [1]), (2, [])] := by decide
 example : (swapRemove [{ id := 0, name := [], version := 1 }, { id := 1, name := [], version := 1 }, { id := 2, name := [], version := 1 }] 0).map (·.id) = [2, 1] := by decide
+
+
+/-! ### added at the end of the third session (proof pack LM): restated by name
+(`type_of%` keeps the statement identical to the lemma; the signature is quoted in the comment) -/
+
+/-- regression statement for the repaired defect 28fbcc4: the history new, load, create_file, remove_from_file(root, f1), create, load ends in a state with consistent file sets (the pre-repair model gave the negation)
+`theorem wPost_filesOk : wPost.filesOk` -/
+theorem C10_regression_merging_load_after_root_removed : type_of% @AV.W.LoadMergeWitness.wPost_filesOk := @AV.W.LoadMergeWitness.wPost_filesOk
+
+/-- an accepted merge keeps "local file set ⊆ effective set of the parent" at every depth
+`theorem mergeElement_filesOk (fver : Nat → Option Nat) (newFile minVerB : Nat) (fuel : Nat) : ∀ (ha : Hdr) (ka : Items) (files : List Nat) (kb : Items) (E' : List Nat), ka.ids.Nodup → kb.ids.Nodup → FilesOk files ka → FilesOk [] kb → (∀ g ∈ files, g ∈ E') → newFile ∈ E' → (mergeElement S V fver newFile minVerB fuel ha ka files kb).2 = none → FilesOk E' (mergeElement S V fver newFile minVerB fuel ha ka files kb).1` -/
+theorem C10_merge_keeps_file_sets_consistent : type_of% @AV.W.mergeElement_filesOk := @AV.W.mergeElement_filesOk
+
+/-- at the level of `load_buffer`; the proof of this statement needed, for the pre-repair model, a hypothesis that a reachable state refutes: the defect repaired by 28fbcc4 (KNOWN_FINDINGS.txt)
+`theorem opLoad_merge_inv (w : World) (k : Nat) (m : Model) (name : Bytes) (strict : Bool) (buf : Bytes) (hm : w.models[k]? = some m) (hne : m.files.isEmpty = false) (hn : m.rootKids.ids.Nodup) (hi : Inv w) : Inv (opLoad S V nmAutosar w k name strict buf).1` -/
+theorem C10_merging_load_keeps_file_sets_consistent : type_of% @AV.W.opLoad_merge_inv := @AV.W.opLoad_merge_inv
 
 end AV.C10
